@@ -554,6 +554,24 @@ func (e *Env) call(c *CallE) Val {
 			return TV{"(ival " + v + ")", types.NewPointer(t.Go)}
 		}
 		return TV{"(ival " + v + ")", t.Go}
+	case "memframe":
+		// all element memory of the slices' element type is unchanged except the listed slices' own elements
+		if len(c.Args) == 0 {
+			e.errf("memframe needs at least one slice; use memsame(T) for 'nothing changed'")
+		}
+		var sls []SL
+		for _, a := range c.Args {
+			sl, ok := e.eval(a).(SL)
+			if !ok {
+				e.errf("memframe argument is not a slice")
+			}
+			sls = append(sls, sl)
+		}
+		elem := under(sls[0].Ty).(*types.Slice).Elem()
+		return boolTV(x.memFrame(e, elem, sls))
+	case "memsame":
+		t := x.P.resolveType(c.Args[0], e.tctx)
+		return boolTV(x.memFrame(e, t.Go, nil))
 	case "int", "uint64", "int64", "uint8", "byte", "uint", "int32", "uint32":
 		v := e.eval(c.Args[0])
 		return TV{x.scalar(v), tInt}
@@ -645,6 +663,48 @@ func (e *Env) callPure(pf *PureFunc, c *CallE) Val {
 	}
 	x.reg.declare(name, "("+strings.Join(sig, " ")+") "+sortOf(rt.Go))
 	return TV{"(" + name + " " + strings.Join(as, " ") + ")", rt.Go}
+}
+
+// memFrame: element memory of type elem is unchanged between e.old and e.cur outside the given slices.
+func (x *Exec) memFrame(e *Env, elem types.Type, except []SL) string {
+	if !isScalar(elem) {
+		e.errf("memframe/memsame only for scalar element types")
+	}
+	mk := x.memKey(elem)
+	cur, old := x.hget(e.cur, mk), x.hget(e.old, mk)
+	if cur == old {
+		return "true"
+	}
+	var ex []string
+	for _, s := range except {
+		ex = append(ex, and(eq("c!f", s.B), le(s.O, "j!f"), lt("j!f", add(s.O, s.L))))
+	}
+	body := eq(sel(sel(cur, "c!f"), "j!f"), sel(sel(old, "c!f"), "j!f"))
+	x.useTop()
+	guard := le("(top c!f)", e.alloc) // only objects that existed in the old state are constrained
+	if len(ex) > 0 {
+		guard = and(guard, not(or(ex...)))
+	}
+	body = implies(guard, body)
+	return fmt.Sprintf("(forall ((c!f Int) (j!f Int)) (! %s :pattern ((select (select %s c!f) j!f))))", body, cur)
+}
+
+// installAxioms asserts the program's axioms (trusted facts about uninterpreted spec functions).
+func (x *Exec) installAxioms() {
+	for i, ax := range x.P.Axioms {
+		env := &Env{x: x, names: map[string]Val{}, cur: Heap{}, old: Heap{}, tctx: x.P.typeCtxForPkg(ax.Pkg, &typeCtx{prog: x.P, targs: map[string]types.Type{}}), alloc: "|alloc@0|"}
+		t := x.evalBool(env, ax.E)
+		attached := false
+		for _, sym := range symbolsOf(t) {
+			if strings.HasPrefix(sym, "|pure:") {
+				x.reg.axiom(sym, fmt.Sprintf("%s#%d", ax.Label, i), t)
+				attached = true
+			}
+		}
+		if !attached {
+			x.reg.axiom("|alloc@0|", fmt.Sprintf("%s#%d", ax.Label, i), t)
+		}
+	}
 }
 
 // ---------- ghost fields ----------
